@@ -1,7 +1,7 @@
 """C13 -- encoded output always decodes and re-parses to the same sheet.
 
 proof:          coq/props/C13.v  (escapecss_decodes, escape_resolves, encode_decode_resolve, escape_matched_whole,
-                escape_token_stable, escaped_<class>_first_token (token boundaries, via C09's lexeme theorems),
+                escape_token_stable, escaped_<class>_first_token (token boundaries incl. every IDENT, via C09's lexeme theorems),
                 escape_resolves_general (texts with backslashes), encoded_reparse_detects (C14's detector, all branches),
                 charset_rule_first, encoding_mirrors_charset, history_encoding_accepted) over coq/theories/EscapeEnc.v + the shared tokenizer model
 tie:            translate/escapeenc.py regenerates the handler's format / slice / handler name / @charset format /
